@@ -319,12 +319,31 @@ def judgeConn (o i : Op) : String :=
     else if i.str "chk" != o.str "hk" || i.str "shk" != o.str "hk" then "negotiated host key algorithm is not the configured one"
     else "ok"
 
+/-- first exchange honest, second exchange scripted: (signature valid over the new H under the presented key,
+    callback accepts the presented key) -/
+def judgeRekeySig (o i : Op) : String :=
+  let sb := o.str "sb"
+  let fixed := o.str "cb" == "fixed"
+  let second : Option (Bool × Bool) :=
+    if sb == "valid" then some (true, true)
+    else if sb == "replay" || sb == "garbage" || sb == "othersig" then some (false, true)
+    else if sb == "otherkey" then some (true, !fixed)      -- another key, properly signed: only the callback can object
+    else none
+  match second with
+  | none => "bad-op"
+  | some x =>
+    if i.str "first" != "ok" then s!"first key exchange: {i.str "first"}"
+    else
+      let want := if sessionAccepts [(true, true), x] then "ok" else "fail"
+      if i.str "rekey" == want then "ok" else s!"re-key: impl {i.str "rekey"}, model {want}"
+
 def handle (line : String) : String :=
   match line.splitOn "\t" with
   | [opS, implS] =>
     let o := parseOp opS
     if o.cmd == "names" then judgeNames (parseOp implS)
     else if o.cmd == "conn" then judgeConn o (parseOp implS)
+    else if o.cmd == "rksig" then judgeRekeySig o (parseOp implS)
     else if o.cmd == "choose" then judgeChoose o implS
     else if o.cmd == "kex" then judgeKex o (parseOp implS)
     else "bad-op"
